@@ -1,8 +1,9 @@
 import PermutaModel.Driver.C01
+import PermutaModel.Driver.C02
 
 namespace Driver
 def handlers : List (String → List String → Option String) :=
-  [Driver.C01.handle]
+  [Driver.C01.handle, Driver.C02.handle]
 
 def dispatch (op : String) (args : List String) : Option String :=
   handlers.findSome? fun h => h op args
